@@ -121,12 +121,6 @@ func join(parts []part) string {
 	return s
 }
 
-func noNUL(s string) {
-	for i := 0; i < len(s); i++ {
-		vrt.Assume(s[i] != 0)
-	}
-}
-
 func check(parts []part) {
 	input := join(parts)
 	wantFn := func() string { return refRender(parts) }
@@ -147,7 +141,6 @@ func TextOnly() {
 	}
 	n := vrt.IntRange(0, max)
 	s := vrt.Bytes(n)
-	noNUL(s)
 	check([]part{{text: s}})
 }
 
@@ -172,10 +165,8 @@ func TextAndTags() {
 		max = 3
 	}
 	s0 := vrt.Bytes(vrt.IntRange(0, max))
-	noNUL(s0)
 	t1 := tags[vrt.Choice(len(tags))]
 	s1 := vrt.Bytes(vrt.IntRange(0, max))
-	noNUL(s1)
 	parts := []part{{text: s0}, t1, {text: s1}}
 	if vrt.Bool() {
 		t2 := tags[vrt.Choice(len(tags))]
@@ -192,7 +183,6 @@ func StringLiteral() {
 	}
 	n := vrt.IntRange(0, max)
 	s := vrt.Bytes(n)
-	noNUL(s)
 	stringLiteral(s)
 }
 
@@ -250,7 +240,6 @@ func BStringLiteral() {
 	}
 	n := vrt.IntRange(0, max)
 	s := vrt.Bytes(n)
-	noNUL(s)
 	for i := 0; i < n; i++ {
 		vrt.Assume(s[i] != '`')
 	}
@@ -267,14 +256,12 @@ func BStringLiteral() {
 func TagsInBlocks() {
 	max := 1 + vrt.Tier()
 	s0 := vrt.Bytes(vrt.IntRange(0, max))
-	noNUL(s0)
 	ti := vrt.Choice(len(tags))
 	// a `return` inside a block ends that block (C08/C16 territory), so the tag
 	// that uses one is not placed inside blocks
 	vrt.Assume(ti != 8)
 	inner := tags[ti]
 	s1 := vrt.Bytes(vrt.IntRange(0, max))
-	noNUL(s1)
 	var pre, post string
 	wrap := vrt.Choice(4)
 	switch wrap {
@@ -318,7 +305,6 @@ func chunkText(k int) string {
 func EscapeSequences() {
 	k := 2 + vrt.Tier()
 	s0 := chunkText(k) + vrt.Bytes(vrt.IntRange(0, 1)) + chunkText(1)
-	noNUL(s0)
 	t1 := tags[vrt.Choice(2)]
 	s1 := chunkText(1 + vrt.Tier())
 	parts := []part{{text: s0}, t1, {text: s1}}
